@@ -9,6 +9,7 @@ Section PDB_proofs.
   Variable V : Type.
   Variable split : string -> list string.
   Variable isblank : string -> bool.
+  Variable strip : string -> string.
   Variable float_of : string -> res V.
   Variable set_lat_par : list V -> res unit.
   Variable scale3_finish : lat_state V -> list (option (list V)) -> list (option V) -> res (bool * bool).
@@ -70,12 +71,11 @@ Section PDB_proofs.
   Proof. intros; unfold six_indices, pdb_ks. wauto. Qed.
 
   Lemma pdb_line_within : forall st line,
-    within pdb_ks (pdb_line V split isblank float_of set_lat_par scale3_finish set_xyz_cartn dot_scale st line).
+    within pdb_ks (pdb_line V split isblank strip float_of set_lat_par scale3_finish set_xyz_cartn dot_scale st line).
   Proof.
     intros st line0; unfold pdb_line.
     destruct (isblank line0); [exact I |].
-    set (line := pad80 line0).
-    apply within_bind; [apply within_idx; simpl; tauto | intros record _].
+    set (line := pad80 line0). set (record := strip (col 0 6 line)).
     destruct (b_last V st) eqn:EL; destruct (b_sc V st) as [sc |] eqn:ES; cbn [negb andb orb];
     repeat match goal with
     | |- within _ (if (?a && true) then _ else _) => replace (a && true) with a by (destruct a; reflexivity)
@@ -116,7 +116,7 @@ Section PDB_proofs.
   Qed.
 
   Theorem only_documented_pdb : forall lines,
-    documented (parse_pdb V split isblank float_of set_lat_par scale3_finish set_xyz_cartn dot_scale lines).
+    documented (parse_pdb V split isblank strip float_of set_lat_par scale3_finish set_xyz_cartn dot_scale lines).
   Proof.
     intros lines. apply within_documented. unfold parse_pdb, parse_pdb_gen.
     eapply within_try with (ks := pdb_ks).
